@@ -5,12 +5,14 @@ package actor
 import (
 	"context"
 	"errors"
+	"reflect"
+	"time"
 
 	gerrors "github.com/tochemey/goakt/v4/errors"
 	"github.com/tochemey/goakt/v4/eventstream"
+	"github.com/tochemey/goakt/v4/extension"
 	"github.com/tochemey/goakt/v4/internal/address"
 	"github.com/tochemey/goakt/v4/internal/commands"
-	"github.com/tochemey/goakt/v4/extension"
 	"github.com/tochemey/goakt/v4/internal/internalpb"
 	"github.com/tochemey/goakt/v4/internal/types"
 	"github.com/tochemey/goakt/v4/internal/xsync"
@@ -21,11 +23,13 @@ import (
 func init() {
 	vRegister("vC17_gate", vC17_gate)
 	vRegister("vC17_afterStop", vC17_afterStop)
+	vRegister("vC17_systemActor", vC17_systemActor)
 	vRegister("vC17_sequence", vC17_sequence)
 	vRegister("vC17_treeTwoStops", vC17_treeTwoStops)
 	vRegister("vC17_treeChildStop", vC17_treeChildStop)
 	vRegister("vC17_treeFailing", vC17_treeFailing)
 	vRegister("vC17_grains", vC17_grains)
+	vRegister("vC17_grainLateSend", vC17_grainLateSend)
 }
 
 // ---- shared environment ----------------------------------------------------------------------------------------------
@@ -259,6 +263,30 @@ func vC17_afterStop() {
 	vCover("end")
 }
 
+// a system actor (reserved name) can only be stopped while the system is stopping: this is what makes the shutting-down
+// flag, set first by actorSystem.shutdown, a precondition of the guardians' teardown
+func vC17_systemActor() {
+	vC17_resetGhosts()
+	sys := vC17_system()
+	root := vC17_pid(sys, "GoAktRootGuardian", 3)
+	sys.noSender = vC17_pid(sys, "GoAktNoSender", 3)
+	g := vC17_pid(sys, "GoAktDeadletter", 0)
+	vAssert(sys.actors.addRootNode(root) == nil && sys.actors.addNode(root, g) == nil, "harness: tree")
+	stopping := vNondetBool("systemStopping")
+	if stopping {
+		sys.shuttingDown.Store(true)
+	}
+	err := g.Shutdown(context.Background())
+	if stopping {
+		vAssert(err == nil && vC17_postStops[0] == 1 && !g.IsRunning(), "while the system stops a system actor is stopped: PostStop once, not running")
+		vCover("stopped")
+	} else {
+		vAssert(errors.Is(err, gerrors.ErrShutdownForbidden) && vC17_postStops[0] == 0 && g.IsRunning(), "a system actor cannot be stopped while the system is running")
+		vCover("forbidden")
+	}
+	vCover("end")
+}
+
 // ---- (c) the order of actorSystem.shutdown ---------------------------------------------------------------------------
 
 const (
@@ -353,7 +381,9 @@ func vC17_seqPassivatorStop(m *passivationManager, c context.Context) { vC17_ev(
 func vC17_seqSchedulerStop(s *scheduler, c context.Context)           { vC17_ev(vC17evScheduler) }
 func vC17_seqHooks(x *actorSystem, ctx context.Context) error         { return vC17_res(vC17evHooks) }
 func vC17_seqDCWatch(x *actorSystem)                                  { vC17_ev(vC17evDCWatch) }
-func vC17_seqDCController(x *actorSystem, ctx context.Context) error  { return vC17_res(vC17evDCController) }
+func vC17_seqDCController(x *actorSystem, ctx context.Context) error {
+	return vC17_res(vC17evDCController)
+}
 func vC17_seqPreShutdown(x *actorSystem) (*internalpb.PeerState, error) {
 	return nil, vC17_res(vC17evPreShutdown)
 }
@@ -641,7 +671,7 @@ func vC17_children(t *tree, pid *PID) []*PID {
 	}
 	return nil
 }
-func vC17_node(t *tree, id string) (*pidNode, bool)          { return vC17_dummyNode, true }
+func vC17_node(t *tree, id string) (*pidNode, bool)           { return vC17_dummyNode, true }
 func vC17_removeDescendant(t *tree, parentID, childID string) {}
 func vC17_unwatch(pid *PID, cid *PID)                         {}
 func vC17_nilErrCtx(pid *PID, ctx context.Context) error      { return nil }
@@ -826,7 +856,7 @@ func vC17_grains() {
 	n := vCase("grains")
 	vC17_resetGhosts()
 	sys := vC17_system()
-	sys.dispatcher = &dispatcher{throughput: 4}
+	sys.dispatcher = &dispatcher{throughput: 2}
 	sys.grains = xsync.NewMap[string, *grainPID]()
 	vC17_poisonDone = false
 	g0 := vC17_mkGrain(sys, 0, "g0")
@@ -873,6 +903,78 @@ func vC17_grains() {
 		if vC17_gReceived[0] == 1 {
 			vCover("teardown-with-message-handled")
 		}
+	}
+	vCover("end")
+}
+
+// ---- (f) a TellGrain in flight while the system stops ---------------------------------------------------------------------
+
+type vC17Registry struct{}
+
+func (vC17Registry) Register(any)                       {}
+func (vC17Registry) Deregister(any)                     {}
+func (vC17Registry) Exists(any) bool                    { return true }
+func (vC17Registry) TypesMap() map[string]reflect.Type  { return nil }
+func (vC17Registry) Type(any) (reflect.Type, bool)      { return nil, false }
+func (vC17Registry) TypeOf(string) (reflect.Type, bool) { return nil, false }
+func vC17_validateID(g *GrainIdentity) error            { return nil }
+
+var vC17_gActivations [2]int
+
+// substituted (*grainPID).activate: OnActivate of the ghost grain succeeded; the state write of the real activate
+func vC17_gActivate(pid *grainPID, ctx context.Context) error {
+	if g, ok := pid.grain.(*vC17Grain); ok {
+		vC17_gActivations[g.idx]++
+	}
+	pid.activated.Store(true)
+	return nil
+}
+
+// substituted (*actorSystem).localSend: its first step (the real ensureGrainProcess) and the enqueue; the reply wait is dropped
+func vC17_localSend(x *actorSystem, ctx context.Context, id *GrainIdentity, message any, timeout time.Duration, synchronous bool) (any, error) {
+	pid, err := x.ensureGrainProcess(ctx, id)
+	if err != nil {
+		return nil, err
+	}
+	pid.receive(&GrainContext{message: message, pid: pid, ctx: ctx, self: id})
+	return nil, nil
+}
+
+// grain g0 is registered; it is active, or inactive (passivated earlier; the next send re-activates it). A TellGrain runs
+// while Stop sets the shutting-down flag and tears the grains down (the two steps of actorSystem.shutdown, in its order).
+func vC17_grainLateSend() {
+	vC17_resetGhosts()
+	sys := vC17_system()
+	sys.dispatcher = &dispatcher{throughput: 2}
+	sys.grains = xsync.NewMap[string, *grainPID]()
+	sys.reflection = newReflection(vC17Registry{})
+	vC17_poisonDone = false
+	g0 := vC17_mkGrain(sys, 0, "g0")
+	vC17_gActivations[0] = 1
+	if vCase("active") == 0 {
+		g0.activated.Store(false)
+		vC17_gActivations[0] = 0
+	}
+	var perr, terr error
+	vGo("stop", func() {
+		sys.shuttingDown.Store(true)
+		perr = sys.poisonAllGrains(context.Background())
+		vC17_poisonDone = true
+	})
+	vGo("tell", func() { terr = sys.TellGrain(context.Background(), g0.identity, 1) })
+	vGo("w0", func() { vC17_gWorker(0, 2) })
+	vRun()
+	vAssert(vC17_gDeactBeg[0] <= vC17_gActivations[0], "OnDeactivate runs at most once per activation")
+	if vThreadDone(0) && vThreadDone(1) && vStuck() {
+		vAssert(perr == nil, "the grain teardown succeeds")
+		vAssert(vC17_gDeactEnd[0] == vC17_gActivations[0] && !g0.isActive(), "when Stop's grain teardown and every send in flight returned, no grain is active and every activation was deactivated")
+		if terr != nil {
+			vCover("send-refused")
+		}
+		if vC17_gReceived[0] == 1 {
+			vCover("send-handled")
+		}
+		vCover("quiescent")
 	}
 	vCover("end")
 }
